@@ -96,6 +96,11 @@ func judgeExportContent(r *ev.Run, si int, src *chain.Snapshot, export string, w
 		if want.Sign() == 0 {
 			continue // empty accounts need not be exported
 		}
+		if a == "" && !ok {
+			// the account stored under the empty address (credited as a reward delegator named "") is dropped by the exporter
+			diff("empty-address-account-dropped", fmt.Sprintf("the account with the empty address holds %s on chain (and is part of the supply); the export omits it", want))
+			continue
+		}
 		if !ok || got.Cmp(want) != 0 {
 			diff("balance", fmt.Sprintf("account %s holds %s on chain; the export says %v", a, want, got))
 			break
